@@ -238,10 +238,10 @@ func (s *Set) GetValue() []byte {
 	var members = make([]byte, 0, s.data.Len())
 	s.data.Scan(func(member string, _ struct{}) bool {
 		mLen := len(member)
-		var b = make([]byte, mLen+1)
+		var b = make([]byte, mLen+binary.MaxVarintLen64)
 		n := binary.PutVarint(b, int64(mLen))
 		copy(b[n:], member)
-		members = append(members, b...)
+		members = append(members, b[:n+mLen]...)
 		return true
 	})
 	return members
